@@ -10,8 +10,9 @@ expected positions) case.  Each case is replayed into the real search_for_paths(
 way the tool builds them (its own argument parser, main()'s derivation), in dot and slash notation; every printed
 path is fed back into Processor.get_nodes in the notation it was printed in and mapped to places of the real
 document.  Projection: the set of reported places, their multiplicity, the re-resolution of every path.
-Where the specification predicts that the mirrored code leaves the declarative definition (DevClass) the replay
-decides on the real code.  Comparisons the documentation leaves open make a case informational.
+The mirrored search models the repaired source (fix: commits for a Set inside a list, the Set arm of the expansion,
+anchors beneath a parent reported whole); the pinned designs are kept as configurations that TLC must reject
+(MC_PathsSearch_pin_*).  Comparisons the documentation leaves open make a case informational.
 Merge keys and anchored keys are outside the YData model: curated documents of that kind are judged by relations
 only (soundness by direct inspection of the node a path resolves to, re-resolution, no repeats, the alias options).
 """
@@ -513,6 +514,16 @@ def run(ctx):
         # (cfg, shards, replay every search in both notations? otherwise the notation alternates from search to search)
         plan = [("MC_PathsSearch_tn.cfg", [0], True), ("MC_PathsSearch_t2a.cfg", [0], True), ("MC_PathsSearch_punct_t.cfg", [0, 1], True),
                 ("MC_PathsSearch_t5.cfg", [ctx.seed % 2], True), ("MC_PathsSearch_t.cfg", list(range(8)), False)]
+    # the pinned designs (before the fix: commits) must violate the theorems: one per quick run, all in the thorough tier
+    pins = ["MC_PathsSearch_pin_set.cfg", "MC_PathsSearch_pin_expand.cfg", "MC_PathsSearch_pin_alias.cfg"]
+    pins = [pins[ctx.seed % 3]] if ctx.quick else pins
+    for cfg in pins:
+        f = ctx.path(cfg + ".cases")
+        r = core.run_tlc(ctx, "MC_PathsSearch", cfg, env={"CASES_OUT": f, "SHARD": "0"}, timeout=1800)
+        if os.path.exists(f):
+            os.remove(f)
+        if r["violated"] != "Check":
+            raise core.MachineryError("%s: the pinned design was expected to violate invariant Check, TLC reports %r (see %s)" % (cfg, r["violated"], r["log"]))
     tot = collections.Counter()
     keep = []               # a slice of the corpus for the CLI sample and the self-test
     ndocs = ngroups = 0
@@ -571,6 +582,7 @@ def run(ctx):
         "scalar_documents_silent": scalar_silent,
         "cli_sample": {"runs": cli_done, "differing": cli_bad},
         "binding_selftest": {"corrupted_records": tried, "rejected": caught},
+        "pinned_designs_rejected_by_tlc": [c.replace(".cfg", "") for c in pins],
         "documents_changed_by_search": tot["documents_changed"],
         "exhaustive": True,
         "samples": [sample] if sample else [],
